@@ -440,9 +440,10 @@ def gen_join():
     ]
     for kind in ("INNER", "LEFT", "RIGHT", "FULL"):
         fam = "join-" + kind.lower()
-        for tag, on in ons:
-            for wtag, w in wheres:
-                out.append((fam, tag + wtag, sel(join(kind, tbl("t"), tbl("u"), on), ALL4, where=w), 2))
+        for oi, (tag, on) in enumerate(ons):
+            for wi, (wtag, w) in enumerate(wheres):
+                core = w is None or (oi in (0, 6, 15, 19) and wi in (1, 2, 4))  # the quick tier's share of the grid
+                out.append((fam, tag + wtag, sel(join(kind, tbl("t"), tbl("u"), on), ALL4, where=w), 2, core))
         # narrower projections (pushdown_projections) and expressions over padded columns
         for tag, on in ons[:1] + ons[6:7] + ons[15:16]:
             out.append((fam, tag + "+project-subset", sel(join(kind, tbl("t"), tbl("u"), on), [(TA, "c0"), (UB, "c1")]), 2))
@@ -645,7 +646,7 @@ def gen_subquery():
     for tag, p in preds:
         out.append(("subquery", "where-" + tag, sel(T, [(TA, "c0"), (TB, "c1")], where=p), 2))
         out.append(("subquery", "project-" + tag, sel(T, [(TA, "c0"), (TB, "c1"), (p, "c2")]), 2))
-        out.append(("subquery", "where-or-" + tag, sel(T, [(TA, "c0"), (TB, "c1")], where=("or", p, ("eq", TB, L(1)))), 2))
+        out.append(("subquery", "where-or-" + tag, sel(T, [(TA, "c0"), (TB, "c1")], where=("or", p, ("eq", TB, L(1)))), 2, False))
     scalars = [
         ("scalar-uncorrelated", ("scalar", sel(U, [(agg("MAX", UB), "x")]))),
         ("scalar-uncorrelated-count", ("scalar", sel(U, [(agg("COUNT", UA), "x")]))),
@@ -661,13 +662,15 @@ def gen_subquery():
 
 
 def queries(tier):
+    """quick: the core queries; thorough: all of them (core ones get the larger data scope, see databases())"""
     qs = gen_filter() + gen_join() + gen_aggregate() + gen_distinct() + gen_order() + gen_limit() + gen_setop() + gen_subquery()
     seen, out = set(), []
-    for fam, tag, q, ntab in qs:
+    for fam, tag, q, ntab, *rest in qs:
+        core = rest[0] if rest else True
         text = q_sql(q)
-        if text not in seen:
+        if text not in seen and (core or tier == "thorough"):
             seen.add(text)
-            out.append({"family": fam, "tag": tag, "q": q, "sql": text, "ntab": ntab})
+            out.append({"family": fam, "tag": tag, "q": q, "sql": text, "ntab": ntab, "core": core})
     return out
 
 
@@ -681,15 +684,15 @@ def tables(max_rows, ordered):
     return out
 
 
-def databases(tier, ntab):
-    """single-table queries: every row SEQUENCE; two-table queries: every pair of row MULTISETS (in canonical order)
-    plus, for t, the reversed sequence when it differs (physical row order is not part of bag semantics but the
-    executor's hash join / Counter code could depend on it)"""
+def databases(tier, ntab, core=True):
+    """single-table queries: every row SEQUENCE of <= 2 (quick) / 3 (thorough) rows; two-table queries: every pair of row
+    MULTISETS (rows in canonical order) of <= 2 rows each; in thorough, core queries get all pairs of <= 3 rows each except
+    the 3 x 3 pairs (27225 of 48400; beyond the 20 minute budget), non-core queries the <= 2 row pairs"""
     n = 2 if tier == "quick" else 3
     if ntab == 1:
         return [(t, ()) for t in tables(n, True)]
-    ms = tables(n, False)
-    out = [(t, u) for t in ms for u in ms]
+    ms = tables(n if core else 2, False)
+    out = [(t, u) for t in ms for u in ms if len(t) + len(u) < 6]
     out.sort(key=lambda d: len(d[0]) + len(d[1]))
     return out
 
@@ -746,7 +749,7 @@ def work(item):
     tier, qi, lo, hi = item
     entry = _QUERIES[tier][qi]
     q, ntab = entry["q"], entry["ntab"]
-    dbs = databases_cached(tier, ntab)[lo:hi]
+    dbs = databases_cached(tier, ntab, entry["core"])[lo:hi]
     st, plan = _plan(qi, tier)
     res = {"qi": qi, "n": 0, "nontrivial": 0, "rejected": Counter(), "plan_rejected": None, "fails": [], "nfail": Counter(),
            "common": {}, "native_checks": 0}
@@ -769,18 +772,18 @@ def work(item):
             res["nontrivial"] += 1
         if disc is None:
             continue
-        # confirm through the real entry point before reporting
-        nk, nv = _outcome(lambda: run_native(entry["sql"], db))
-        res["native_checks"] += 1
-        ndisc = ("exception:" + nv) if nk == "exception" else (compare(q, nv, db) if nk == "rows" else None)
-        if ndisc != disc:
-            raise RuntimeError(f"checker error: violation {disc} on the plan-once path is {ndisc} through execute(): {entry['sql']!r} {db!r}")
         res["nfail"][disc] += 1
         empty, null = _features(db, ntab)
         c = res["common"].setdefault(disc, [True, True])
         c[0] &= empty
         c[1] &= null
         if sum(1 for f in res["fails"] if f[0] == disc) < 2:
+            # every reported example is confirmed through the real entry point first (12 ms each: examples only)
+            nk, nv = _outcome(lambda: run_native(entry["sql"], db))
+            res["native_checks"] += 1
+            ndisc = ("exception:" + nv) if nk == "exception" else (compare(q, nv, db) if nk == "rows" else None)
+            if ndisc != disc:
+                raise RuntimeError(f"checker error: violation {disc} on the plan-once path is {ndisc} through execute(): {entry['sql']!r} {db!r}")
             res["fails"].append((disc, db, val if kind == "rows" else None))
     return res
 
@@ -788,10 +791,10 @@ def work(item):
 _DBS = {}
 
 
-def databases_cached(tier, ntab):
-    if (tier, ntab) not in _DBS:
-        _DBS[(tier, ntab)] = databases(tier, ntab)
-    return _DBS[(tier, ntab)]
+def databases_cached(tier, ntab, core=True):
+    if (tier, ntab, core) not in _DBS:
+        _DBS[(tier, ntab, core)] = databases(tier, ntab, core)
+    return _DBS[(tier, ntab, core)]
 
 
 def _db_json(db):
@@ -803,8 +806,8 @@ def run(tier, seed):
     _QUERIES[tier] = qs
     items = []
     for qi, entry in enumerate(qs):
-        n = len(databases_cached(tier, entry["ntab"]))
-        step = 800 if entry["ntab"] == 2 else n
+        n = len(databases_cached(tier, entry["ntab"], entry["core"]))
+        step = 800 if entry["ntab"] == 2 else 400
         for lo in range(0, n, step):
             items.append((tier, qi, lo, min(n, lo + step)))
     order = list(range(len(items)))
@@ -919,7 +922,7 @@ def selfcheck(tier="quick", stride=7):
         if " ALL (" in text or " ANY (" in text or "INTERSECT ALL" in text or "EXCEPT ALL" in text:
             skipped += 1
             continue
-        dbs = databases_cached(tier, e["ntab"])
+        dbs = databases_cached(tier, e["ntab"], e["core"])
         for db in dbs[:: (stride if e["ntab"] == 2 else 1)]:
             for name, rows in zip(("t", "u"), db):
                 con.execute(f"DROP TABLE IF EXISTS {name}")
